@@ -787,10 +787,11 @@ def use_forms(v):
             if w[0] == 'tuple':
                 for m, u in w[1]:
                     f['select_%s_%s' % (n, m)] = ([], 'x.%s.%s' % (n, m), u)
-    if v[0] == 'list' and v[1] and all(compat(a, c) for a in v[1] for c in v[1]):
-        f['elem0'] = ([], 'x.0', v[1][0])
-        f['elem_last'] = ([], 'x.%d' % (len(v[1]) - 1), v[1][-1])
+    if v[0] == 'list' and all(compat(a, c) for a in v[1] for c in v[1]):
         f['concat'] = ([], 'x + x', L(*(v[1] + v[1])))
+        if v[1]:
+            f['elem0'] = ([], 'x.0', v[1][0])
+            f['elem_last'] = ([], 'x.%d' % (len(v[1]) - 1), v[1][-1])
     if v[0] == 'int' and abs(v[1]) < 10 ** 6:
         f['arith'] = ([], 'x + 1', I(v[1] + 1))
     if v[0] == 'str':
@@ -827,16 +828,17 @@ def shape_of(c):
     return shape_of(c[1]) if c[0] == 'named' else None
 
 
-def widened(e, v):
-    """v plus what the exemplar e says beyond it: the fields e has and v lacks, the elements of e where v is the empty list (at every depth)"""
+def widened(e, v, in_tuple=False):
+    """v plus what the exemplar e says beyond it: the fields e has and v lacks and, inside a tuple, the elements of e where v is the
+    empty list (at every depth)"""
     if e[0] != v[0] or e[0] not in ('tuple', 'list'):
         return v
     if e[0] == 'tuple':
         fe = dict(e[1])
-        return T(*([(n, widened(fe[n], x) if n in fe else x) for n, x in v[1]] + [(n, x) for n, x in e[1] if n not in dict(v[1])]))
+        return T(*([(n, widened(fe[n], x, True) if n in fe else x) for n, x in v[1]] + [(n, x) for n, x in e[1] if n not in dict(v[1])]))
     if not v[1]:
-        return e
-    return L(*[widened(e[1][0], x) if len(e[1]) == 1 else x for x in v[1]])
+        return e if in_tuple else v
+    return L(*[widened(e[1][0], x, in_tuple) if len(e[1]) == 1 else x for x in v[1]])
 
 
 def emptied(e, v):
@@ -875,7 +877,7 @@ def standin_chained_lets(tier, seed):
                 w_empty = use_forms(emptied(e1, v)).get(un, (0, 0, None))[2] if e1 is not None else w
                 for c2 in c2s:
                     ok = ok1 and admits(c2, w)
-                    if ok1 and ((ok and not admits(c2, w_wide)) or (not ok and (w_empty is None or admits(c2, w_empty)))):
+                    if ok1 and static_only(c2) and ((ok and not admits(c2, w_wide)) or (not ok and (w_empty is None or admits(c2, w_empty)))):
                         b.skipped += 1          # KNOWN: wider_exemplar_remembered / empty_list_exemplar_forgets
                         continue
                     for c2w in ([c2, ('named', c2)] if thorough else [rnd.choice([c2, c2, ('named', c2)])]):
